@@ -319,7 +319,7 @@ static int cmd_shrinkcrash(int argc, char **argv) {
 	if (!sc) return 2;
 	int cls = run_child(sc, p);
 	if (cls == 0 || cls == 1) { printf("SHRINKCRASH no-crash class=%d\n", cls); return 3; }
-	int used = 0, budget = 300;
+	int used = 0, budget = cls == 78 ? 10 : 300;   // every hanging candidate costs a full watchdog period
 	bool progress = true;
 	while (progress && used < budget) {
 		progress = false;
